@@ -415,7 +415,7 @@ func probe(w *world, rep *vevid.Report, args []string) {
 			sl = append(sl, Sel{F: p[0], Fn: p[1]})
 		}
 		var qs []Query
-		for iv := range intervals {
+		for iv := 0; iv < mainIntervals; iv++ {
 			for _, gb := range []bool{false, true} {
 				qs = append(qs, Query{Sels: sl, Range: 0, Ivl: iv, GB: gb})
 			}
